@@ -54,6 +54,9 @@ class AkArgumentParser(argparse.ArgumentParser):
 
     def register_dependent(self, name, parser):
         """Register dependent parser"""
+        if self._dependent_parsers.get(name) is parser:
+            # already registered (the same ancestor is reachable via several parents)
+            return
         assert name not in self._dependent_parsers
         self._dependent_parsers[name] = parser
 
